@@ -73,6 +73,8 @@ type Exec struct {
 	zarrSeen map[string]bool
 	heapReads []heapRead
 	rootFrame *Frame
+	accessorState *State // state in which defined accessors are evaluated
+	allFuncs map[string]*ssa.Function
 	namedFuns map[string]*namedFun
 	perm []*Term // facts that hold unconditionally and must survive roll-backs (literal definitions, ...)
 	calledCells map[string]*Cell
